@@ -268,7 +268,7 @@ def check(tier: str, replay: Optional[str] = None) -> int:
             stats[k] = stats.get(k, 0) + x
     print(f"[C10] replay: {stats}", flush=True)
     if not replay and (stats["unresolved"] == 0 or stats["imported_targets"] == 0 or stats["retargets"] == 0 or stats["sn_unresolved"] == 0):
-        raise tlc.MachineryError(f"vacuity: {stats}")
+        v.vacuous(f"vacuity: {stats}")
     cov = {"states": res.distinct, "transitions": res.generated, "traces_validated_against_impl": stats["id_loads"] + stats["sn_loads"],
            "evaluations": stats["id_loads"] + stats["sn_loads"] + stats["retargets"], "distinct_nontrivial": stats["id_loads"] // 2 + stats["sn_loads"],
            "rule": "every placement of data objects with the same local ID(s) over layers A, S, V (container C1) and E (shared data, "
